@@ -363,7 +363,7 @@ Definition step1 (w : world) (o : op) : res (world * list obs) :=
   let mkWorld := keep w in
   match o with
   | OpCtor compr =>
-      el1 <- (if compr then ctor_compr else ctor_plain junk0) ;;
+      el1 <- (if compr then ctor_compr junk0 else ctor_plain junk0) ;;
       Ok (mkWorld el1, [])
   | OpCreate c e => el1 <- create junk0 el c e ;; Ok (mkWorld el1, [])
   | OpHdrSet f v =>
